@@ -7,6 +7,9 @@ import json, os, shutil, subprocess, sys, re
 wt, sid = sys.argv[1], sys.argv[2]
 backend = sys.argv[3] if len(sys.argv) > 3 else None    # tasking backend the DEMO needs (tests always run on the default build)
 dst = os.path.join(os.path.dirname(os.path.dirname(os.path.abspath(__file__))), "seeded", sid)
+if os.path.exists(os.path.join(dst, "patch.diff")) and not os.environ.get("ADOPT_OVERWRITE"):
+    # seed numbers have gaps (C10 has no -06): a count-based id overwrote C10-07 once (restored from git)
+    sys.exit("adopt_seed: %s exists already - pick the next free number (ADOPT_OVERWRITE=1 to replace it on purpose)" % dst)
 def sh(cmd, cwd=wt, timeout=3600):
     p = subprocess.run(cmd, shell=True, cwd=cwd, stdout=subprocess.PIPE, stderr=subprocess.STDOUT, timeout=timeout)
     return p.returncode, p.stdout.decode(errors="replace")
